@@ -63,6 +63,9 @@ def closure_site(crate, cb):
     """(parent body, block) where closure body cb is created"""
     parent_path = cb.path.rsplit('::{closure#', 1)[0]
     pb = crate.by_path.get(parent_path)
+    norm = getattr(crate, 'normal', None)
+    if norm is not None and parent_path in getattr(norm, 'host', {}):
+        pb = norm.host[parent_path]         # the function that absorbed the helper in which the closure is written
     if pb is None:
         return None, None
     for b, i, s in pb.iter_assigns():
